@@ -1,5 +1,5 @@
 (* C03 — A matching round clears every executable pair (and never fails: see the note at the end). *)
-Require Import Pams.Prelude Pams.Match Pams.Market Pams.MatchQ Pams.MarketInv Pams.MarketExec Pams.MarketPost.
+Require Import Pams.Prelude Pams.Match Pams.Market Pams.MatchQ Pams.MarketInv Pams.MarketExec Pams.MarketPost Pams.MarketRound.
 Open Scope Z_scope.
 
 (* Immediately after a round that returned: if both sides are non-empty and at least one of the two
@@ -22,6 +22,33 @@ Theorem C03_no_fill_unless_running : forall m m' logs,
   execution m = Ok (m', logs) -> logs <> [] -> m_running m = true.
 Proof. exact no_fill_when_not_running. Qed.
 Print Assumptions C03_no_fill_unless_running.
+
+(* THE ROUND NEVER FAILS: on every well-formed running market - books of any depth, market orders on one or both sides, crossed
+   books accumulated while matching was off - the round returns; none of the assertions of Market._execution (walk
+   assertions, `price is None`, the final "no executable orders remain"), Market._execute_orders or
+   OrderBook.change_order_volume (negative volume) can fire *)
+Theorem C03_round_never_fails : forall m, book_ok m -> m_running m = true -> exists m' logs, execution m = Ok (m', logs).
+Proof. exact execution_never_errors. Qed.
+Print Assumptions C03_round_never_fails.
+
+(* ... for every state reachable by any operation list *)
+Theorem C03_round_never_fails_on_reachable_books : forall id tk mp0 ops,
+  Forall valid_op ops -> let m := final_state (init_market id tk mp0) ops in
+  m_running m = true -> exists m' logs, execution m = Ok (m', logs).
+Proof. intros. apply execution_never_errors; auto. apply reachable_ok; auto. apply book_ok_init. Qed.
+Print Assumptions C03_round_never_fails_on_reachable_books.
+
+(* on a market that is not running the only possible refusal is "market is not running" (no fill on a stopped market, C16) *)
+Theorem C03_stopped_market_refuses_or_does_nothing : forall m, book_ok m -> m_running m = false ->
+  execution m = Ok (m, []) \/ execution m = Err EAssertNotRunning.
+Proof. exact execution_not_running. Qed.
+Print Assumptions C03_stopped_market_refuses_or_does_nothing.
+
+(* an executable book always yields a price (the `price is None` assertion): contrapositive *)
+Theorem C03_walk_without_price_means_nothing_executable : forall m,
+  book_ok m -> fst (run_walk m) = None -> executable m = false.
+Proof. exact walk_without_price_means_not_executable. Qed.
+Print Assumptions C03_walk_without_price_means_nothing_executable.
 
 (* non-vacuity: a crossed book with a market order on top, accumulated with matching off, is cleared
    and leaves bid 99 < ask 101 *)
